@@ -789,6 +789,13 @@ class Builtins:
         if not a:
             return SV(const(0.0))
         t = it.split_kind(a[0]).t
+        ts = simp(t)
+        if vals.tag_of(ts) == 'StrV' and z3.is_string_value(simp(V.s(ts))):
+            # float('<literal>'): decided by CPython's own parser
+            try:
+                return SV(const(float(simp(V.s(ts)).as_string())))
+            except ValueError:
+                it.raise_('ValueError')
         numk = vals.is_numlike(t)
         strok = z3.And(V.is_StrV(t), O.STR2FLOAT_OK(V.s(t)))
         kk = it.choose([z3.And(numk, z3.Not(O.too_big(t))), z3.And(numk, O.too_big(t)), strok,
